@@ -512,6 +512,15 @@ def builtin_getattr(I, obj, attr, node=None):
                 obj.flat = arr_concat([obj.flat, x])
                 obj.count = obj.count + 1
             return _m(append)
+    if isinstance(obj, SymList):
+        if attr == "append":
+            def sl_append(I, x):
+                if not isinstance(x, (int, z3.ArithRef)):
+                    raise Unsupported("SymList.append of a non-scalar")
+                old_at, n, xv = obj.at, obj.n, to_term(x)
+                obj.at = lambda k: z3.If(k < n, old_at(k), xv)
+                obj.n = n + 1
+            return _m(sl_append)
     if isinstance(obj, SegList):
         if attr == "append":
             return _m(lambda I, x: obj.segs.append(("one", x)))
